@@ -1047,6 +1047,11 @@ def analyse(ctx, cfg, facts, raw_facts, is_view):
             for (o, v), (got, evaluated) in sorted(m.items(), key=lambda kv: (kv[0][0], kv[0][1] or "")):
                 want = expected(o, v)
                 label = "%s%s" % (o, ("→" + v) if v else "")
+                if got == "ITER(?)" and want == "ERR":
+                    # what is iterated over was not read, but *that* the walk is reached was: a collection operand that
+                    # must be rejected (a computed number, boolean or object) is walked as some collection instead
+                    ctx.fail("K2.collection", "%s: %s ⇒ %s (%s)" % (name, label, want, cfg), "%s reaches its iteration for a collection operand of kind %s (over something that was not read) where an error is required: a value that is not iterable is treated as some collection" % (name, label), where=b.where(), fn=b.key)
+                    continue
                 if got.startswith("UNREAD") or got == "ITER(?)":
                     ctx.unread("K2.collection", "%s: %s ⇒ %s (%s)" % (name, label, want, cfg), "what %s iterates over for a collection operand of kind %s was not read (%s)" % (name, label, got), where=b.where(), fn=b.key)
                     continue
